@@ -35,6 +35,7 @@ class Cfg:
         self.p_halt = 0.08
         self.dead_code = 0.15       # probability that a block keeps statements after one that ends the control flow
         self.reader_shaped = False  # only op shapes a binary SSB reader delivers (int flags for BranchEdit/Variation…)
+        self.hdr_pos = 0.0          # share of condition operations (if / while / for headers) that carry a Position literal
         self.with_halt = 0.0        # share of with-blocks whose statement is return / end / hold (behind a context op nothing stops the routine)
         self.goto_style = 0.0       # share of routines written with labels, `if (c) { jump @l; }` and jumps only: the compiler folds
                                     # lone jumps into the branch ops, which gives layouts of flow graphs that structured source never yields
@@ -115,7 +116,13 @@ class ProgGen:
         if c < 0.9:
             return {"h": "scn", "var": self.il("vc"), "cmp": self.r.choice(["==", ">", "<", ">=", "<="]), "a": self.r.randint(0, 50), "b": self.r.randint(0, 9)}
         nm, ar = self.r.choice(BRANCH_OPS[:2] if self.cfg.reader_shaped else BRANCH_OPS)
-        return {"h": "operation", "name": nm, "args": [self.il("ic") for _ in range(ar)]}
+        hargs = [self.il("ic") for _ in range(ar)]
+        if getattr(self.cfg, "hdr_pos", 0) and self.cfg.pos_marks and ar >= 1 and self.r.random() < self.cfg.hdr_pos:
+            # a Position literal as an argument of a condition operation (if / elseif / while / for headers)
+            self.hit("hdr_pos")
+            hargs[-1] = {"k": "pos", "name": self.r.choice(["m0", "Mark", "p_1", ""]), "x": self.r.choice(["0", "12", "3.5", "7.0", "0.5"]),
+                         "y": self.r.choice(["1", "20.5", "4", "9.50"]), "quote": self.r.choice(["'", '"'])}
+        return {"h": "operation", "name": nm, "args": hargs}
 
     def switch_header(self) -> dict:
         c = self.r.random()
